@@ -651,4 +651,157 @@ Proof.
   rewrite (next_false_at F _ _ RPAREN Y _ A1) by (discriminate || exact HF1). reflexivity.
 Qed.
 
+Lemma kw_import_eq : kw_import = LOWER_I :: [x6d; x70; x6f; x72; x74].
+Proof. reflexivity. Qed.
+
+Lemma decl_after_import d Y : wf_decl d = true ->
+  exists Y1, render_decl d ++ Y = kw_import ++ Y1 /\ after_word Y1 = true.
+Proof.
+  intros Hwf. destruct d as [t1 sp|t1 specs tend]; cbn [render_decl wf_decl] in *.
+  - exists (render_trivia t1 ++ render_spec sp ++ Y). split; [now rewrite <- !app_assoc|].
+    apply andb_true_iff in Hwf. destruct Hwf as [Hwf Hn]. apply andb_true_iff in Hwf. destruct Hwf as [Ht Hs].
+    destruct t1 as [|t t1].
+    + cbn [render_trivia map concat app]. unfold wf_spec, render_spec in *. destruct sp as [n mid l].
+      cbn [sp_name sp_mid sp_path] in *. destruct n as [| |id]; cbn [render_name app].
+      * apply andb_true_iff in Hs. destruct Hs as [Hs _]. apply andb_true_iff in Hs. destruct Hs as [Hs _].
+        apply is_nil_b_true in Hs. rewrite Hs. cbn [app]. rewrite <- app_assoc. apply lit_after_word.
+      * reflexivity.
+      * discriminate.
+    + cbn [wf_trivia forallb] in Ht. apply andb_true_iff in Ht. destruct Ht as [Ht _].
+      now apply triv_head_after_word.
+  - exists (render_trivia t1 ++ LPAREN :: render_specs specs ++ render_trivia tend ++ RPAREN :: Y).
+    split; [rewrite <- !app_assoc; cbn [app]; rewrite <- !app_assoc; reflexivity|].
+    apply andb_true_iff in Hwf. destruct Hwf as [Hwf _]. apply andb_true_iff in Hwf. destruct Hwf as [Ht _].
+    apply trivia_after_word; [exact Ht|reflexivity].
+Qed.
+
+Lemma import_decl_at i dn d Y : wf_decl d = true -> length (render_decl d ++ Y) + 4 <= F ->
+  import_decl F (landed i dn (render_decl d ++ Y))
+  = cst Y (rev (render_decl d) ++ dn) NUL (i ++ decl_paths d).
+Proof.
+  intros Hwf HF. assert (HF1 : 1 <= F) by lia. unfold import_decl.
+  destruct (decl_after_import d Y Hwf) as [Y1 [E1 HW1]].
+  assert (A0 : at_ i dn (render_trivia [] ++ (LOWER_I :: [x6d; x70; x6f; x72; x74]) ++ Y1)
+                 (landed i dn (render_decl d ++ Y))).
+  { cbn [render_trivia map concat app]. rewrite E1, kw_import_eq. apply landed_at. discriminate. }
+  pose proof (read_keyword_at F i LOWER_I [x6d; x70; x6f; x72; x74] [] dn Y1 _ A0 eq_refl eq_refl eq_refl HW1) as A1.
+  rewrite <- kw_import_eq in A1. cbn [render_trivia map concat rev app] in A1.
+  assert (HF' : length (kw_import ++ Y1) + 4 <= F) by (rewrite <- E1; exact HF).
+  specialize (A1 HF'). set (s1 := read_keyword F kw_import (landed i dn (render_decl d ++ Y))) in *.
+  destruct d as [t1 sp|t1 specs tend]; cbn [render_decl wf_decl decl_paths] in *.
+  - apply andb_true_iff in Hwf. destruct Hwf as [Hwf Hn]. apply andb_true_iff in Hwf. destruct Hwf as [Ht Hs].
+    rewrite <- !app_assoc in E1. apply app_inv_head in E1. subst Y1.
+    destruct (spec_head sp Y Hs) as [Hh [_ Hl]].
+    rewrite (peek_true_at F i _ t1 (render_spec sp ++ Y) s1 A1 Ht Hh).
+    2:{ revert HF'. rewrite !app_length. lia. }
+    rewrite Hl.
+    rewrite (read_import_at i sp _ Y _ (landed_at i _ _ (after_triv_hd_ok _ Hh)) Hs).
+    2:{ revert HF'. rewrite !app_length. lia. }
+    f_equal. listnorm. reflexivity.
+  - apply andb_true_iff in Hwf. destruct Hwf as [Hwf Hte]. apply andb_true_iff in Hwf. destruct Hwf as [Ht Hsp].
+    rewrite <- !app_assoc in E1. apply app_inv_head in E1. cbn [app] in E1. rewrite <- !app_assoc in E1. subst Y1.
+    rewrite (peek_true_at F i _ t1 (LPAREN :: render_specs specs ++ render_trivia tend ++ RPAREN :: Y) s1 A1 Ht eq_refl).
+    2:{ revert HF'. rewrite !app_length. lia. }
+    cbn [hd]. rewrite beq_refl.
+    rewrite (import_group_at i _ specs tend Y Hte Hsp).
+    2:{ revert HF'. rewrite !app_length. lia. }
+    f_equal. listnorm. reflexivity.
+Qed.
+
+Definition top_step (s : st) : st * bool :=
+  let (c, s) := peek_byte F true s in
+  if beq c LOWER_I then (import_decl F s, true) else (s, false).
+
+Definition decls_paths (decls : list (list triv * idecl)) : list bytes :=
+  concat (map (fun x => decl_paths (snd x)) decls).
+
+Lemma stop_rest_after_triv rest : stop_rest rest = true ->
+  after_triv rest = true /\ beq (hd NUL rest) LOWER_I = false.
+Proof.
+  destruct rest as [|c r]; [split; reflexivity|]. cbn [stop_rest stop_byte after_triv hd].
+  intros H. apply andb_true_iff in H. destruct H as [H H4]. apply andb_true_iff in H. destruct H as [H H3].
+  apply andb_true_iff in H. destruct H as [H1 H2]. rewrite H1, H2, H3. split; [reflexivity|].
+  now apply negb_true_iff in H4.
+Qed.
+
+Lemma top_loop_at tend rest decls : wf_trivia tend = true -> stop_rest rest = true -> forall i dn s f,
+  at_ i dn (render_decls decls ++ render_trivia tend ++ rest) s ->
+  forallb (fun x => wf_trivia (fst x) && wf_decl (snd x)) decls = true ->
+  length decls + 1 <= f ->
+  length (render_decls decls ++ render_trivia tend ++ rest) + 4 <= F ->
+  loop f oofs top_step s
+  = landed (i ++ decls_paths decls) (rev (render_trivia tend) ++ rev (render_decls decls) ++ dn) rest.
+Proof.
+  intros Hte Hst. destruct (stop_rest_after_triv rest Hst) as [Hra Hri].
+  induction decls as [|[t d] decls IH]; intros i dn s f Hat Hwf Hf HF.
+  - destruct f as [|f]; [cbn in Hf; lia|]. cbn [loop render_decls map concat app rev decls_paths] in *.
+    unfold top_step. rewrite (peek_true_at F i dn tend rest s Hat Hte Hra HF).
+    rewrite Hri. now rewrite app_nil_r.
+  - cbn [forallb fst snd] in Hwf. apply andb_true_iff in Hwf. destruct Hwf as [Hw1 Hwf].
+    apply andb_true_iff in Hw1. destruct Hw1 as [Hwt Hwd].
+    destruct f as [|f]; [cbn in Hf; lia|].
+    change (render_decls ((t, d) :: decls)) with ((render_trivia t ++ render_decl d) ++ render_decls decls) in *.
+    rewrite <- !app_assoc in *. cbn [loop]. unfold top_step at 1.
+    set (Z := render_decls decls ++ render_trivia tend ++ rest) in *.
+    assert (Hd : exists R, render_decl d ++ Z = LOWER_I :: R).
+    { destruct d; cbn [render_decl]; rewrite kw_import_eq; cbn [app]; eauto. }
+    destruct Hd as [R Hd].
+    assert (Hh : after_triv (render_decl d ++ Z) = true) by (rewrite Hd; reflexivity).
+    rewrite (peek_true_at F i dn t (render_decl d ++ Z) s Hat Hwt Hh HF).
+    rewrite Hd at 1. cbn [hd]. rewrite beq_refl.
+    rewrite (import_decl_at i _ d Z Hwd).
+    2:{ revert HF. rewrite !app_length. lia. }
+    rewrite (IH _ _ _ f (at_fresh _ _ _) Hwf); [|cbn [length] in Hf; lia|revert HF; rewrite !app_length; lia].
+    unfold decls_paths. cbn [map concat snd]. rewrite <- !app_assoc. f_equal. listnorm. reflexivity.
+Qed.
+
+Lemma kw_package_eq : kw_package = x70 :: [x61; x63; x6b; x61; x67; x65].
+Proof. reflexivity. Qed.
+
+Lemma decls_length decls : length decls <= length (render_decls decls).
+Proof.
+  induction decls as [|[t d] decls IH]; [cbn; lia|].
+  change (render_decls ((t, d) :: decls)) with ((render_trivia t ++ render_decl d) ++ render_decls decls).
+  rewrite !app_length. assert (1 <= length (render_decl d)) by (destruct d; cbn [render_decl]; rewrite kw_import_eq; cbn [app length]; lia).
+  lia.
+Qed.
+
+Lemma scan_at g rest : wf_section g rest = true -> length (render_body g ++ rest) + 4 <= F ->
+  scan_imports F (cst (render_body g ++ rest) [] NUL [])
+  = landed (paths g) (rev (render_body g)) rest.
+Proof.
+  unfold wf_section, render_body, paths. destruct g as [bm t0 t1 pkg decls tend].
+  cbn [f_bom f_t0 f_t1 f_pkg f_decls f_tend]. intros Hwf HF.
+  repeat (let H := fresh "W" in apply andb_true_iff in Hwf; destruct Hwf as [Hwf H]).
+  rename Hwf into W0.
+  (* W0: t0, W5: t1, W4: t1 nonempty, W3: pkg, W2: decls, W1: tend, W: stop_rest, ... *)
+  unfold scan_imports. rewrite <- !app_assoc in *.
+  set (Z := render_decls decls ++ render_trivia tend ++ rest) in *.
+  (* package *)
+  assert (HW1 : after_word (render_trivia t1 ++ pkg ++ Z) = true).
+  { destruct t1 as [|t t1]; [discriminate|]. cbn [wf_trivia forallb] in *.
+    match goal with H : wf_triv t && _ = true |- _ => apply andb_true_iff in H; destruct H as [Ht _] end.
+    now apply triv_head_after_word. }
+  rewrite kw_package_eq in *.
+  pose proof (read_keyword_at F [] x70 [x61; x63; x6b; x61; x67; x65] t0 [] (render_trivia t1 ++ pkg ++ Z) _
+                (at_fresh _ _ _) W0 eq_refl eq_refl HW1 HF) as A1.
+  rewrite <- kw_package_eq in *.
+  set (s1 := read_keyword F kw_package _) in *.
+  (* the package name *)
+  unfold wf_ident in *.
+  match goal with H : negb (is_nil_b pkg) && forallb is_ident pkg = true |- _ =>
+    apply andb_true_iff in H; destruct H as [Hne Hid] end.
+  destruct pkg as [|a pkg]; [discriminate|].
+  match goal with H : after_word Z = true |- _ => rename H into HWZ end.
+  rewrite (read_ident_at F [] a pkg t1 _ Z s1 A1); auto.
+  2:{ revert HF. rewrite !app_length. lia. }
+  change (fun s0 : st => set_fail s0 FFuel) with oofs.
+  match goal with |- context [loop F oofs ?st _] => change st with top_step end.
+  unfold Z. rewrite (top_loop_at tend rest decls); auto.
+  - f_equal. listnorm. reflexivity.
+  - apply landed_at. now apply after_word_hd_ok.
+  - pose proof (decls_length decls). revert HF. rewrite !app_length. lia.
+  - revert HF. rewrite !app_length. lia.
+Qed.
+
 End Section_.
